@@ -70,7 +70,7 @@ func (p *Prog) Registry() *Registry {
 			r.Errs = append(r.Errs, "anchor "+n+" not found")
 			continue
 		}
-		eachInstr(f, func(in ssa.Instruction) {
+		eachInstrRaw(f, func(in ssa.Instruction) {
 			mu, ok := in.(*ssa.MapUpdate)
 			if !ok {
 				return
